@@ -202,3 +202,87 @@ theorem wf_blocksOK (n : Nat) (chromOf : Nat → Nat) (hap : Array Seg) (hwf : P
       omega
 
 end Convert
+
+namespace Convert
+open Seg OutputVcf Assign Plan
+
+/-! ### `--no_replacement`: the stretches requested from `_find_random_sample` -/
+
+/-- the `(start, end)` pairs `_convert_haplotype` asks `_find_random_sample` for on one chromosome: the first block
+    from 0, every later block from the previous block's end + 1 (`hap_pos[-1] + 1`), each up to its own end -/
+def requestsFrom : Nat → List Nat → List (Nat × Nat)
+  | _, [] => []
+  | st, e :: es => (st, e) :: requestsFrom (e + 1) es
+
+def requests (hap : Array Seg) (c : Nat) : List (Nat × Nat) :=
+  requestsFrom 0 ((chromSegs hap c).map (·.endc))
+
+theorem requestsFrom_length : ∀ (st : Nat) (es : List Nat), (requestsFrom st es).length = es.length
+  | _, [] => rfl
+  | st, e :: es => by simp [requestsFrom, requestsFrom_length (e + 1) es]
+
+/-- with strictly increasing ends (and the first end at or after the start) every requested stretch is non-empty,
+    starts right after the previous one ends, and later stretches lie strictly beyond earlier ones: the stretches are
+    exactly the blocks' extents – pairwise disjoint, without gaps -/
+theorem requestsFrom_tile : ∀ (st : Nat) (es : List Nat), es.Pairwise (· < ·) → (∀ e ∈ es, st ≤ e) →
+    (requestsFrom st es).Pairwise (fun a b => a.2 < b.1) ∧
+    (∀ r ∈ requestsFrom st es, st ≤ r.1 ∧ r.1 ≤ r.2) ∧
+    (∀ k (hk : k + 1 < (requestsFrom st es).length),
+      ((requestsFrom st es)[k + 1]).1 = ((requestsFrom st es)[k]'(by omega)).2 + 1)
+  | _, [], _, _ => by simp [requestsFrom]
+  | st, e :: es, hs, hge => by
+    have hs' := (List.pairwise_cons.mp hs).2
+    have he := (List.pairwise_cons.mp hs).1
+    have hst : st ≤ e := hge e List.mem_cons_self
+    have ih := requestsFrom_tile (e + 1) es hs' (fun x hx => by have := he x hx; omega)
+    refine ⟨?_, ?_, ?_⟩
+    · simp only [requestsFrom]
+      refine List.pairwise_cons.mpr ⟨?_, ih.1⟩
+      intro r hr
+      have := (ih.2.1 r hr).1
+      simp only; omega
+    · intro r hr
+      simp only [requestsFrom, List.mem_cons] at hr
+      rcases hr with rfl | hr
+      · exact ⟨Nat.le_refl _, hst⟩
+      · have := ih.2.1 r hr; omega
+    · intro k hk
+      cases k with
+      | zero =>
+        cases es with
+        | nil => simp [requestsFrom] at hk
+        | cons e2 es2 => simp [requestsFrom]
+      | succ k =>
+        simp only [requestsFrom, List.length_cons] at hk
+        have := ih.2.2 k (by omega)
+        simpa [requestsFrom] using this
+
+theorem requestsFrom_head : ∀ (st : Nat) (es : List Nat) (h : 0 < (requestsFrom st es).length),
+    ((requestsFrom st es)[0]).1 = st
+  | _, [], h => by simp [requestsFrom] at h
+  | _, _ :: _, _ => by simp [requestsFrom]
+
+/-- **the stretches registered for a well-sorted haplotype on one chromosome are its blocks' extents**: the first
+    starts at 0, each next one right after the previous end, the k-th one ends at the k-th block end; hence what
+    `_find_coord` records as used is exactly what `output_vcf` copies -/
+theorem requests_are_block_extents (hap : Array Seg) (c : Nat) (hs : SortedL hap.toList) :
+    (requests hap c).length = (chromSegs hap c).length ∧
+    (requests hap c).map (·.2) = (chromSegs hap c).map (·.endc) ∧
+    (requests hap c).Pairwise (fun a b => a.2 < b.1) ∧
+    (∀ k (hk : k + 1 < (requests hap c).length),
+      ((requests hap c)[k + 1]).1 = ((requests hap c)[k]'(by omega)).2 + 1) ∧
+    (∀ (h0 : 0 < (requests hap c).length), ((requests hap c)[0]).1 = 0) := by
+  have hstrict : ((chromSegs hap c).map (·.endc)).Pairwise (· < ·) := by
+    rw [chromSegs_eq_filter hap c hs]; exact ends_strict hap.toList c hs
+  have ht := requestsFrom_tile 0 _ hstrict (fun _ _ => Nat.zero_le _)
+  refine ⟨by simp [requests, requestsFrom_length], ?_, ht.1, ht.2.2, ?_⟩
+  · unfold requests
+    generalize ((chromSegs hap c).map (·.endc)) = es
+    generalize 0 = st
+    induction es generalizing st with
+    | nil => rfl
+    | cons e t ih => simp [requestsFrom, ih]
+  · intro h0
+    exact requestsFrom_head 0 _ h0
+
+end Convert
